@@ -661,7 +661,7 @@ public:
 
     auto get() const -> integer_t
     {
-        const BitField channel_mask = static_cast< integer_t >( parent_t::max_val ) <<_first_bit;
+        const BitField channel_mask = static_cast< BitField >( parent_t::max_val ) <<_first_bit;
         return static_cast< integer_t >(( this->get_data()&channel_mask ) >> _first_bit );
     }
 };
@@ -707,13 +707,13 @@ public:
 
     auto get() const -> integer_t
     {
-        BitField const channel_mask = static_cast< integer_t >( parent_t::max_val ) << _first_bit;
+        BitField const channel_mask = static_cast< BitField >( parent_t::max_val ) << _first_bit;
         return static_cast< integer_t >(( this->get_data()&channel_mask ) >> _first_bit );
     }
 
     void set_unsafe(integer_t value) const {
-        const BitField channel_mask = static_cast< integer_t >( parent_t::max_val ) << _first_bit;
-        this->set_data((this->get_data() & ~channel_mask) | value<<_first_bit);
+        const BitField channel_mask = static_cast< BitField >( parent_t::max_val ) << _first_bit;
+        this->set_data((this->get_data() & ~channel_mask) | static_cast< BitField >( value ) << _first_bit);
     }
 };
 } }  // namespace boost::gil
